@@ -73,6 +73,7 @@ def handle (args : List String) : String :=
   match args with
   | ["net", stations, kind, adp, v] =>
     handleNet (if stations = "-" then [] else (splitOn stations ",").map nat!) kind (nat! adp) (nat! v)
+  | ["bigring", _] => "n/a"   -- monitor-only case of the harness (address clause on a ring of > 4096 devices)
   | [maxSub, caps, iters, assign, devs, _prior] =>
     -- an earlier init of the same MainDevice (any network, any outcome) does not enter the model: `init` is a
     -- function of the network under test only; the harness runs the earlier init for real
